@@ -142,16 +142,21 @@ func bindSource(s *Summary, c *bindCase) {
 			body = uv.Encode()
 		}
 	}
-	if c.Params && ctype != "" {
-		ctype += "; charset=utf-8"
-	}
 	want := map[string]string{"query": "Q", "form": "F", "multipart": "M", "json": "J", "xml": "X"}[c.Source]
-	for api := 0; api < 2; api++ {
+	baseType := ctype
+	// media type parameters do not take part in the choice of the source, whatever characters their values hold
+	for api := 0; api < 6; api++ {
+		ctype = baseType
+		if c.Params && ctype != "" {
+			ctype += []string{"; charset=utf-8", "; version=2+beta; charset=utf-8", `; client="app+web/1.0"`}[api/2]
+		} else if api >= 2 {
+			break
+		}
 		var v bindT
 		req := mkReq(c.Method, "/b?age=1&name=Q&ok=true&tags=q", body, ctype)
 		var err error
 		var pan any
-		if api == 0 {
+		if api%2 == 0 {
 			err, pan = safeBind(func() error { return binding.Auto(req, &v) })
 		} else {
 			r := rux.New()
